@@ -678,6 +678,23 @@ pub fn check(cfg: &CheckCfg) -> i32 {
                 continue;
             }
         }
+        // "one call used more than 3 s of CPU" is the one clause that reads a clock: it counts only when the
+        // same run shows it again alone in a process of its own (twice, if need be) - like a stall, a slow call
+        // that does not reproduce is the machine's doing and is noted, not reported
+        if class.starts_with("slow-build") && special.is_none() {
+            let r = plan(&corpus, &cfg.property, &cfg.tier, root, idx);
+            let mut again = 0;
+            for _ in 0..2 {
+                match exec_isolated(&r, Duration::from_secs(120)) {
+                    Isolated::Done(out) if !out.violations.iter().any(|v| v.class == class) => {}
+                    _ => again += 1,
+                }
+            }
+            if again < 2 {
+                notes.push(format!("NOTE: run {} showed '{}' in the batch ({}) but not when executed alone twice: not reported", idx, class, v.detail));
+                continue;
+            }
+        }
         let mut run = match special {
             Some(r) => r,
             None => {
@@ -803,6 +820,16 @@ pub fn check(cfg: &CheckCfg) -> i32 {
         "SUMMARY property={} runs={} events={} builds={} fresh_builds={} checkpoints_compared={} distinct_nontrivial={} wall={:.1}s",
         cfg.property, agg.results, agg.stats.events, agg.stats.builds, agg.stats.fresh_builds, agg.stats.checkpoints_synced, distinct_nontrivial, wall
     );
+    // vacuity guard: the oracles are differential (session vs fresh process, variant vs variant) or negative (no
+    // panic, no hang), so a compiler that refuses nearly everything would pass them all; normally about half of
+    // the fresh builds give code
+    {
+        let yes = *agg.stats.probes.get("fresh_build_gave_code").unwrap_or(&0);
+        let no = *agg.stats.probes.get("fresh_build_gave_no_code").unwrap_or(&0);
+        if cfg.only.is_none() && yes + no >= 1000 && yes * 10 < yes + no && reported.is_empty() {
+            harness_errors.push(format!("the workload has become vacuous: only {} of {} fresh builds produced code (normally about half): nothing was decided about the code path", yes, yes + no));
+        }
+    }
     if !harness_errors.is_empty() {
         for e in &harness_errors {
             println!("HARNESS-ERROR: {}", e);
